@@ -252,12 +252,20 @@ var KeyNotSymbol = fmt.Errorf("key is not a symbol")
 // name the key 6 (so that h[6]=10 works). Every entry point applies it, so
 // no stored key is itself a one-element array, which the lookups made on
 // behalf of hpair, str and json would unwrap once more and then miss.
+//
+// An array can be its own element (see aset): the unwrapping stops at an
+// array it has already unwrapped, which then is the key.
 func hashKeyOf(key Sexp) Sexp {
+	var seen map[*SexpArray]bool
 	for {
 		arr, isArray := key.(*SexpArray)
-		if !isArray || len(arr.Val) != 1 {
+		if !isArray || len(arr.Val) != 1 || seen[arr] {
 			return key
 		}
+		if seen == nil {
+			seen = make(map[*SexpArray]bool)
+		}
+		seen[arr] = true
 		key = arr.Val[0]
 	}
 }
